@@ -171,7 +171,19 @@ def historyOp : Op := fun j => do
   let p ← getPreloads (← field j "preloads")
   if !decide (p.Below heap0.size) then throw "dangling_preload_ref"
   let hist ← getList (getList getAccess) (← field j "history")
-  let res := Impl.history cfg ext pol p hist heap0
+  -- the cached_property machine is what is compared with the code; the uncached accessors must
+  -- report the same (C15.cached_history_refines_spec) — cross-checked here on every request
+  let res := Impl.historyCached cfg ext pol true p hist heap0
+  let res' := Impl.history cfg ext pol p hist heap0
+  let same := res.2.length == res'.2.length && (res.2.zip res'.2).all fun q =>
+    match q.1, q.2 with
+    | none, none => true
+    | some a, some b => a.length == b.length && (a.zip b).all fun r => eqBuf r.1 r.2
+    | _, _ => false
+  let nanFree := res.2.all fun o => match o with
+    | none => true
+    | some l => l.all fun b => b.all fun x => !x.isNaN
+  if !same && nanFree then throw "cached_uncached_disagree"
   let outs := res.2.map fun o => match o with
     | none => Json.str "inversion_exception"
     | some l => listToJson bufToJson l
